@@ -23,6 +23,10 @@ CHECKS = {
          "Seeded search over schedules: the real hid.tridonic, hid.hasseb, DriverLubaRs232 and DriverSCIRS232 run on a virtual-time asyncio loop against gateway models; 2-4 concurrent callers (sends, explicitly locked sends, sequences that sleep, raise or are cancelled) with seeded start ties, gaps, report latencies and bus outcomes; the oracle checks the tagged wire log (whole units contiguous, EnableDeviceType immediately before each device-type command, per-unit frame list exact), completion of every caller, lock state at quiescence and generator closure. Sampling, not proof.",
          "Trusted base: gateway models written from the protocol notes in the drivers (DESIGN.md 2.5), CPython asyncio, the library's own frame decoder for building command objects. asyncio's FIFO ready queue is not permuted.",
          "deterministic simulation (virtual-time asyncio loop, seeded schedule search, wire-log oracle)", "4"),
+ "C16": ("drvsim+syncsim", "exploration",
+         "Seeded search: the four asyncio drivers on the virtual loop and the daliserver / ATX-hat clients against blocking fake peers; 1-3 callers issue every category of command; each query gets a seeded bus outcome (silent, a run-unique value, framing error), serial gateways may answer later than the documented timeout, other masters' query/answer traffic is interleaved; the oracle compares type and raw value of every returned response with the outcome the gateway model produced for that very transmission, so an answer handed to the wrong command is attributable. Sampling, not proof.",
+         "Trusted base: gateway/peer models (DESIGN.md 2.5), no answer generated inside the 80-120 % ambiguity band of a timeout, runs in which a transmit confirmation is slower than 80 % of its timeout are set aside (C17 territory).",
+         "deterministic simulation (virtual-time loop / blocking fake peers, seeded outcomes and latencies, per-transmission answer attribution)", "4"),
 }
 
 PLANNED = {}
